@@ -278,10 +278,22 @@ func propTagsRun(t *vt.T) {
 	orders := []string{"", "fifo", "lifo", "none"}
 	dp, dd := t.IntRange("defPriority", 0, 3), t.Bool("defDelete")
 	tags := []tagSpec{{pattern: "", priority: &dp, order: orders[1+t.Pick("defOrder", 3)], del: &dd, method: "http"}}
+	// group-by: the default (up to the first dot), the top directory with its slash, or the
+	// leading lower-case letters - which are none for names starting with a digit: such a file's
+	// group is then found through the tag its name matches. Patterns are chosen so that matching
+	// the group and matching the name agree.
+	gbMode := t.Weighted("groupBy", 2, 1, 2)
+	groupBy := []string{"", `^([a-z]+/)`, `^([a-z]*)`}[gbMode]
+	dirsV, patsV := runDirs, runPatterns
+	if gbMode == 2 {
+		dirsV = []string{"info", "data", "2024", "7x", "2024", "7x"}
+		patsV = []string{`^info`, `^2024`, `^data`, `^2024`, `^(info|7x)`, `^7x`}
+		t.Class("group-by-with-empty-capture")
+	}
 	np := t.IntRange("nPatternTags", 0, 3)
-	perm := t.Perm("patternOrder", len(runPatterns))
+	perm := t.Perm("patternOrder", len(patsV))
 	for i := 0; i < np; i++ {
-		tags = append(tags, tagSpec{pattern: runPatterns[perm[i]], priority: pi("priority", 1, 3), order: orders[t.Pick("order", 4)], del: pb("delete"),
+		tags = append(tags, tagSpec{pattern: patsV[perm[i]], priority: pi("priority", 1, 3), order: orders[t.Pick("order", 4)], del: pb("delete"),
 			method: []string{"", "http", "disk", "none"}[t.Weighted("method", 2, 1, 2, 1)]})
 	}
 	// (an explicit zero priority is not generated for pattern tags: what it means under inheritance is
@@ -298,7 +310,7 @@ func propTagsRun(t *vt.T) {
 	base := time.Now().Add(-2 * time.Hour).Truncate(time.Second)
 	ages := t.Perm("ageOrder", nf)
 	for i := 0; i < nf; i++ {
-		name := runDirs[t.Pick("dir", len(runDirs))] + "/" + runLeaves[t.Pick("leaf", len(runLeaves))]
+		name := dirsV[t.Pick("dir", len(dirsV))] + "/" + runLeaves[t.Pick("leaf", len(runLeaves))]
 		if seen[name] {
 			continue
 		}
@@ -347,16 +359,6 @@ func propTagsRun(t *vt.T) {
 		}
 		eff[i] = e
 	}
-	groupBy := []string{"", `^([a-z]+/)`}[t.Pick("groupBy", 2)]
-	group := func(name string) string {
-		if groupBy == "" {
-			if i := strings.Index(name, "."); i > 0 {
-				return name[:i]
-			}
-			return name
-		}
-		return name[:strings.Index(name, "/")+1]
-	}
 	tagOf := func(name string) int {
 		for i := 1; i < len(tags); i++ {
 			if regexp.MustCompile(tags[i].pattern).MatchString(name) {
@@ -364,6 +366,22 @@ func propTagsRun(t *vt.T) {
 			}
 		}
 		return 0
+	}
+	group := func(name string) string {
+		switch gbMode {
+		case 0:
+			if i := strings.Index(name, "."); i > 0 {
+				return name[:i]
+			}
+			return "tag:" + tags[tagOf(name)].pattern // no dot: the group is found through the tag
+		case 1:
+			return name[:strings.Index(name, "/")+1]
+		}
+		m := regexp.MustCompile(`^([a-z]*)`).FindStringSubmatch(name)[1]
+		if m != "" && m != name {
+			return m
+		}
+		return "tag:" + tags[tagOf(name)].pattern
 	}
 	// ---- sender set-up
 	home := filepath.Join(s.sandbox, "area", "send")
